@@ -40,7 +40,8 @@ TREES = {
         ".reuse/dep5": "Format: https://www.debian.org/doc/packaging-manuals/copyright-format/1.0/\nUpstream-Name: x\n\n"
                        "Files: doc/*\nCopyright: 2019 Doc Writers\nLicense: CC-BY-SA-4.0\n",
         "doc/a.md": "text\n", "img.png": b"\x89PNG\r\n", "img.png.license": "SPDX-FileCopyrightText: Artist\nSPDX-License-Identifier: CC-BY-4.0\n",
-        "LICENSES/CC-BY-4.0.txt": "x", "LICENSES/CC-BY-SA-4.0.txt": "y", "LICENSES/Unused-But-There.txt": "z"},
+        "LICENSES/CC-BY-4.0.txt": "x", "LICENSES/CC-BY-SA-4.0.txt": "y", "LICENSES/Unused-But-There.txt": "z",
+        "LICENSES/LicenseRef-Unused-By-Any-File.txt": "nobody refers to this text\n"},
     "same-basename-same-content": {"p1/__init__.py": PY.format("MIT"), "p2/__init__.py": PY.format("MIT"), "p2/sub/__init__.py": PY.format("MIT"),
                                    "e1/empty": "", "e2/empty": "", "LICENSES/MIT.txt": "MIT text",
                                    "REUSE.toml": 'version = 1\n[[annotations]]\npath = "**/empty"\nSPDX-FileCopyrightText = "E"\nSPDX-License-Identifier = "MIT"\n'},
@@ -362,7 +363,9 @@ def concluded_truth_tables(tier):
 
 def run(ctx):
     e = engine(ctx)
-    verify_all(ctx, e, FUNCTIONS)
+    from pyvc.driver import generic_replay
+    for q in FUNCTIONS:
+        ctx.verify(e, q, replay=generic_replay(q) if q == "reuse.report.format_creator" else None)
     lemmas(ctx, e, "C18")
     assumed_contracts(ctx, e, "C18")
     ctx.bounded.append(spdx_documents(ctx.tier))
